@@ -16,7 +16,7 @@ from ..world import World
 ID = "C15"
 DELTA = 0.1
 SLACK = 0.5
-KINDS = ["idle", "partial-head", "short", "long", "stuck", "h2-idle", "h2-short", "h2-stuck", "ws-open", "h2-two-short"]
+KINDS = ["idle", "partial-head", "short", "long", "stuck", "h2-idle", "h2-short", "h2-stuck", "ws-open", "h2-two-short", "pipelined"]
 
 
 def _cases() -> List[dict]:
@@ -30,8 +30,8 @@ def _cases() -> List[dict]:
 
 def plan(tier: str) -> dict:
     return {
-        "runs": 4000 if tier == "quick" else 200000,
-        "budget": 70 if tier == "quick" else 900,
+        "runs": 15000 if tier == "quick" else 200000,
+        "budget": 150 if tier == "quick" else 900,
         "cases": _cases(),
         "chunk": 30,
         "rule": "1..6 connections, each in one of nine phases at the trigger (idle keep-alive, partial request head, "
@@ -92,7 +92,21 @@ def run(tape: Tape, params: dict) -> Outcome:
         tag = b"k%d" % ci
         entry: Dict[str, Any] = {"kind": kind, "tag": tag}
         start = t_trigger - 0.3 - 0.01 * ci
-        if kind in ("idle", "partial-head", "short", "long", "stuck"):
+        if kind == "pipelined":
+            # two requests sent back to back; the first is still being served when shutdown begins, the second
+            # is a new request and must not be taken on
+            tag2 = tag + b"x"
+            entry["tag2"] = tag2
+            host.programs[tag] = [("recv_all",), ("pause", ("sleep", 0.3 + short_d)), ("respond", 200, [], [b"done-" + tag])]
+            host.programs[tag2] = [("recv_all",), ("respond", 200, [], [b"second"])]
+            parser = h1peer.ResponseParser()
+            parser.expect(b"GET")
+            parser.expect(b"GET")
+            s = Script(world, [("send", _get(tag) + _get(tag2)), ("wait", lambda sc: False, 30.0)], parser)
+            s.start_at(start)
+            entry["script"] = s
+            n_requests += 1
+        elif kind in ("idle", "partial-head", "short", "long", "stuck"):
             parser = h1peer.ResponseParser()
             steps: List[tuple] = []
             if kind == "idle":
@@ -271,6 +285,15 @@ def _check(world: World, host: AppHost, conns: List[Dict[str, Any]], late: Scrip
         if kind in ("idle", "partial-head", "h2-idle"):
             if closed is None or closed > t0 + DELTA + conn.s2c_latency:
                 bad("idle-closed", f"{kind} connection closed at {closed}, shutdown began at {t0:.3f}", **key)
+        if kind == "pipelined":
+            rs = script.parser.responses
+            if not rs or rs[0].status != 200 or bytes(rs[0].body) != b"done-" + tag:
+                bad("in-grace-delivered", "pipelined: the request in progress when shutdown began was not delivered "
+                    "in full", **key)
+            second = next((i for i in host.instances if i.tag == entry["tag2"]), None)
+            if second is not None and second.start_time > t0 + 1e-9:
+                bad("late-request-served", f"pipelined: a request waiting behind the one in progress was taken on at "
+                    f"{second.start_time:.3f}, after shutdown had begun ({t0:.3f})", **key)
         if kind in ("short", "h2-short", "h2-two-short"):
             # finishing inside the grace period: delivered in full
             if kind == "short":
